@@ -214,6 +214,57 @@ def vertical_unit(h):
     h.ensure('looked-up-on-the-right-axis', len(seen) == 1 and seen[0] is [galt, gtim][which])
 
 
+@unit('C05', 'line-parameters', [G + ':calculate_line_parameters'], replay='contracts.C05:replay_line')
+def line_unit(h):
+    """calculate_line_parameters on a path of any length: each segment's line through its two end points -- slope dy/dx and
+    intercept y - slope * x whenever the two abscissae differ at all (however little), the infinite-slope marker only when
+    they are equal."""
+    gu.install(h)
+    I = h.I
+    inf = h.real('infinite_slope_marker')
+    I.models['const:numpy.inf'] = lambda I_: inf
+    n = h.int('n_points')
+    h.assume(n >= 2)
+    x, y = SArr.symbolic(h.ctx, 'x', n), SArr.symbolic(h.ctx, 'y', n)
+    r = h.call(G + ':calculate_line_parameters', x, y)
+    slopes, intercepts = r[0], r[1]
+    h.ensure('one-line-per-segment', z3.And(to_z3(I.len_(slopes)) == n - 1, to_z3(I.len_(intercepts)) == n - 1))
+    j = h.int('any_segment')
+    h.assume(z3.And(j >= 0, j < n - 1))
+    x0, x1, y0, y1 = (to_real(v) for v in (x.at(j), x.at(j + 1), y.at(j), y.at(j + 1)))
+    for nm, v in (('x0', x0), ('x1', x1), ('y0', y0), ('y1', y1)):
+        h.ctx.named[nm] = v
+    sl, ic = to_real(slopes.at(j)), to_real(intercepts.at(j))
+    h.ensure('slope-is-dy-over-dx-whenever-the-abscissae-differ', z3.Implies(x1 != x0, sl * (x1 - x0) == y1 - y0))
+    h.ensure('infinite-slope-marker-only-for-equal-abscissae', z3.Implies(x1 == x0, sl == inf))
+    h.ensure('the-line-passes-through-the-segments-start-point', z3.Implies(x1 != x0, ic == y0 - sl * x0))
+
+
+def replay_line(payload):
+    from contracts.gridcheck import _import_grid
+    np = _import_grid()[0]
+    from AEIC.gridding.grid import calculate_line_parameters
+    m = (payload or {}).get('model', {}) or {}
+    cases = []
+    try:
+        cases.append(tuple(float(m[k]) for k in ('x0', 'x1', 'y0', 'y1')))
+    except (KeyError, TypeError, ValueError):
+        pass
+    for dx in (1e-9, -1e-9, 1e-8, 1e-12, 3e-7, 0.0, 1e-3):
+        for x0 in (0.0, 0.3, -1.2):
+            cases.append((x0, x0 + dx, 0.5, 0.5 + 2e-3))
+    problems = []
+    for x0, x1, y0, y1 in cases:
+        sl, ic = calculate_line_parameters(np.array([x0, x1]), np.array([y0, y1]))
+        if x1 != x0:
+            want = (y1 - y0) / (x1 - x0)
+            if not np.isfinite(sl[0]) or abs(sl[0] - want) > 1e-9 * abs(want):
+                problems.append(f'segment ({x0!r},{y0!r})->({x1!r},{y1!r}): slope {sl[0]!r}, expected {want!r}')
+        elif not np.isinf(sl[0]):
+            problems.append(f'equal abscissae {x0!r}: slope {sl[0]!r}, expected inf')
+    return dict(reproduced=bool(problems), observed=problems[:4], required='slope dy/dx unless dx == 0')
+
+
 def replay_crossing(payload):
     from contracts.gridcheck import run_families
     r = run_families(dict(tier='quick', only='crossing'))
